@@ -3,6 +3,7 @@ package measure_test
 import (
 	"context"
 	"fmt"
+	"math"
 	"sort"
 	"strings"
 	"testing"
@@ -456,6 +457,7 @@ func TestVerifC15MeasureParity(t *testing.T) {
 			c := c15Case{Chunk: rapid.IntRange(1, 5).Draw(t, "chunk"), Batch: rapid.SampledFrom([]int{1, 2, 3, 7, 1024}).Draw(t, "batch"),
 				Repeat: rapid.IntRange(0, 2).Draw(t, "repeat"), BatchEC: rapid.Bool().Draw(t, "batchec")}
 			n := rapid.IntRange(1, 60).Draw(t, "rows")
+			bigInts := rapid.IntRange(0, 4).Draw(t, "bigints") == 0
 			seen := map[[2]int]bool{}
 			nullBias := rapid.SampledFrom([]int{0, 2, 5}).Draw(t, "nullbias")
 			for i := 0; i < n; i++ {
@@ -471,6 +473,10 @@ func TestVerifC15MeasureParity(t *testing.T) {
 				r.Zone = int64(rapid.IntRange(0, 2).Draw(t, "zone"))
 				r.ZoneNull = rapid.IntRange(0, 9).Draw(t, "znull") < nullBias
 				r.V = int64(rapid.IntRange(-1000, 1000).Draw(t, "v"))
+				if bigInts {
+					// neighbours that float64 cannot tell apart (a comparison through float64 would tie them)
+					r.V = rapid.SampledFrom([]int64{1 << 53, 1<<53 + 1, 1<<53 + 2, -(1 << 53), -(1 << 53) - 1, 1 << 62, 1<<62 + 1, 1<<62 - 1, math.MaxInt64 / 4, math.MaxInt64/4 - 1}).Draw(t, "bigv")
+				}
 				r.VNull = rapid.IntRange(0, 9).Draw(t, "vnull") < nullBias
 				r.FQuarter = int64(rapid.IntRange(-4000, 4000).Draw(t, "fq"))
 				r.FNull = rapid.IntRange(0, 9).Draw(t, "fnull") < nullBias
